@@ -372,11 +372,10 @@ func (c *channel) receiver() {
 
 		select {
 		case <-c.parentCtx.Done():
-			if err == nil {
-				// The node was closed while a reply was being delivered. The failure of the stream
-				// will not be observed anymore, so the calls that are still pending are failed here.
-				c.cancelPendingMsgs()
-			}
+			// The node was closed while a reply was being delivered, or right after the stream had
+			// been re-created above. The failure of the (new) stream will not be observed anymore,
+			// so the calls that are still pending are failed here.
+			c.cancelPendingMsgs()
 			return
 		default:
 		}
